@@ -52,6 +52,24 @@ CLAIMS = {
             "(1) 167 whitelist/LAN configurations x 3,790 RemoteAddr strings (IPv4, IPv6, mapped, bracket, zone, port variants, malformed) through getIPAccessControlFunc and accessControlHandler (403 and inner handler not run wherever the reference does not justify admission) plus a /16-granular sweep of the IPv4 space under all 16 LAN subsets; Run() and Server.Start() exercised once on real loopback sockets. (2) AmountToString/StringToAmount on every integer in [0, 2e7 -> 2e8], the top of the range, 31,789 structured values and a stride across [0, max] against integer division rendered canonically plus round trip; all short strings over a small alphabet for the parser. (3) 64 -> 1,024 keys and plot ids x all supported sizes listed through the real GetCapacitySpaces(.V2) methods against massutil binding targets / P2PKH addresses, decoded back with an independent base58check codec.",
             "host names in RemoteAddr out of scope (resolver); amount range dense only at both ends; SHA-256/RIPEMD-160/secp256k1 shared with the reference",
             "DESIGN.md §C20"),
+    "C09": ("model_checking",
+            "explicit-state search over the real SpaceKeeper under a quiescence-based controlled scheduler (plotter gates H3, fake plot database); all action orders with canonical-state pruning",
+            "qsched",
+            "Real capacity.SpaceKeeper with 1-2 (thorough 3) workspaces in registered/ready initial states and a fake plot database; actions = plot/mine/stop/remove/delete per workspace and bulk forms (operation budget 2-3 quick / 3-4 thorough), release of each of the five plotter gates, plot completion/abort; every order explored (BFS, canonical state incl. queue, popped item, channel content, gates, pending calls, sticky-stop monitor). In every quiescent state: exactly-one-state and index consistency, at most one plotting, the 16 flag filters agree across WorkSpaceIDs/WorkSpaceInfos/states, GetProofs(mining) offers exactly the used mining spaces; every state change is a documented edge for the action taken; refused remove/delete change nothing; a stopped space does not enter plotting/mining (nor complete its plot) until asked again. Open findings: stop does not cancel outstanding requests (5 fingerprints).",
+            "API bodies are atomic under stateLock and the plotter's steps 1/3 hold it, so gate granularity covers every order observable through states; unsynchronised accesses between gates are not enumerated; skchia keeper (same plotter code) is not driven separately",
+            "DESIGN.md §C09"),
+    "C13": ("model_checking",
+            "explicit-state search over the real SpaceKeeper under the quiescence scheduler with small request-channel capacities; deadlock = pending call after drain, decided from goroutine wait reasons",
+            "qsched",
+            "As C09 with a request channel of capacity 0 and 1 (thorough 2 and 3 workspaces), up to 2 calls in flight, keeper.Stop() at any moment as an action; every terminal execution is drained (Stop issued, gates released, running plot completed): any call or Stop that has not returned is a deadlock; panics in calls are violations. Open findings: PlotWS/MineWS send on the full channel while holding the state lock (2 fingerprints).",
+            "capacity 0-2 stands for 1024 (a scripted confirmation at the real constant is listed in DESIGN); Go's random select between quit and a ready request is handled by replay retries",
+            "DESIGN.md §C13"),
+    "C15": ("exploration",
+            "bounded-exhaustive enumeration of existing-space multisets x configuration requests on the real keeper over real (header-only) plot files",
+            "seqx",
+            "Real SpaceKeeper (NewSpaceKeeperV1) over real massdb.v1 header-only files with a deterministic fake wallet: every multiset of <=2 existing spaces over bl{24,26,28,30} x 2 directories x {used,removed} (thorough: sizes 3-4 too) x every request of the alphabet (BySize over all a*S24+b*S26+c*S28 sums +-1 byte and boundary values; ByPath with 1-2 directories; ByBitLength count maps; ByFlags), plus all pairs of a 43-request alphabet; each case ends with a second keeper on the same directories. Oracle: size bounds, reuse-before-create, new files only in requested directories, exact counts, rejected requests leave the listing unchanged, selection found again after restart.",
+            "requests that the RPC layer's pre-checks refuse before calling the keeper, the private auto-create switch, and a per-directory entry below the minimum next to a valid one are diagnostics, not violations (see DESIGN §C15); free-disk figures from the real statfs: only far-below / far-beyond requests are judged",
+            "DESIGN.md §C15"),
     "C12": ("fault_enumeration",
             "exhaustive fault injection: every storage event of every (reached state, mutating operation) pair x {failed write/commit, crash before, crash after} on the real wallet over a fault-injecting db.DB wrapper",
             "seqx",
